@@ -306,8 +306,82 @@ Proof.
   assert (Hat : at_ d (bytes ++ [])) by (exists [], []; split; [cbn [raw app]; now rewrite !app_nil_r | reflexivity]).
   assert (Hrem : remaining d = len bytes) by (unfold remaining, d; cbn [raw off]; lia).
   pose proof (mcount_bytes bs ops bytes Hops Hs) as Hc.
-  destruct (mset_loop_roundtrip _ bs (norm_plain bs) (S (Z.to_nat (remaining d))) d MNil ops bytes
-              (plain_rel _ bs Hpl) ltac:(rewrite Hrem; lia) Hops Hs Hat Hrem Hlen) as (d' & E & M).
+  match goal with |- context [mset_loop (message_decode_with decompress ?n)] =>
+    destruct (mset_loop_roundtrip n bs (norm_plain bs) (S (Z.to_nat (remaining d))) d MNil ops bytes
+                (plain_rel n bs Hpl) ltac:(rewrite Hrem; lia) Hops Hs Hat Hrem Hlen) as (d' & E & M)
+  end.
   exists d'. rewrite E. cbn [mapp]. destruct M as (_ & M2 & M3 & _). cbn [off mem d] in M2, M3. repeat split; lia.
+Qed.
+
+(* one level of compression: a wrapper message whose value is the encoding of a set of plain messages *)
+Inductive wrapped_blocks : mblocks -> mblocks -> Prop :=
+| wb_nil : wrapped_blocks MNil MNil
+| wb_plain o codec la key value set version ts r r' :
+    in_i64 o -> msg_ok (mkMsg codec la key value set version ts) -> codec = 0 -> wrapped_blocks r r' ->
+    wrapped_blocks (MCons o (mkMsg codec la key value set version ts) r)
+                   (MCons o (norm_msg (mkMsg codec la key value set version ts) None) r')
+| wb_wrap o codec la key v set version ts inner p ov iops r r' :
+    in_i64 o -> msg_ok (mkMsg codec la key (Some v) set version ts) -> codec <> 0 ->
+    plain_blocks inner -> mset_ops compress (mkSet p ov inner) = inr iops -> spec_bytes iops = inr v -> len v < MAXLEN ->
+    wrapped_blocks r r' ->
+    wrapped_blocks (MCons o (mkMsg codec la key (Some v) set version ts) r)
+                   (MCons o (norm_msg (mkMsg codec la key (Some v) set version ts) (Some (mkSet false false (norm_plain inner)))) r').
+
+Definition nested_at (k : nat) : list Z -> dec -> res mset := fun buf d0 =>
+  match mset_decode decompress k (mkDec buf 0 (mem d0) []) with
+  | Ok s dn => Ok s (set_mem d0 (mem dn))
+  | Err e dn => Err e (set_mem d0 (mem dn))
+  | Panic w => Panic w
+  | Alloc n => Alloc n
+  end.
+
+Lemma wrapped_rel k bs bs' : wrapped_blocks bs bs' -> blocks_rel (nested_at (S k)) bs bs'.
+Proof.
+  induction 1 as [|o codec la key value set version ts r r' Ho Hok Hc Hr IH
+                  |o codec la key v set version ts inner p ov iops r r' Ho Hok Hc Hpl Hops Hs Hlen Hr IH].
+  - constructor.
+  - constructor; try assumption. subst codec. cbn [nested_for]. destruct value; reflexivity.
+  - constructor; try assumption. cbn [nested_for]. replace (codec =? 0) with false by (symmetry; now apply Z.eqb_neq).
+    eexists; split; [reflexivity|]. intros d0. unfold nested_at.
+    destruct (mset_roundtrip_plain k p ov inner iops v (mem d0) Hpl Hops Hs Hlen) as (d' & E & _ & Em).
+    rewrite E, Em. now rewrite set_mem_same.
+Qed.
+
+Theorem mset_roundtrip_wrapped k p ov bs bs' ops bytes m0 :
+  wrapped_blocks bs bs' -> mset_ops compress (mkSet p ov bs) = inr ops -> spec_bytes ops = inr bytes -> len bytes < MAXLEN ->
+  exists d', mset_decode decompress (S (S k)) (mkDec bytes 0 m0 []) = Ok (mkSet false false bs') d' /\
+             off d' = len bytes /\ mem d' = m0.
+Proof.
+  intros Hw Hops Hs Hlen. cbn [mset_ops] in Hops.
+  set (d := mkDec bytes 0 m0 []).
+  assert (Hat : at_ d (bytes ++ [])) by (exists [], []; split; [cbn [raw app]; now rewrite !app_nil_r | reflexivity]).
+  assert (Hrem : remaining d = len bytes) by (unfold remaining, d; cbn [raw off]; lia).
+  pose proof (mcount_bytes bs ops bytes Hops Hs) as Hc.
+  destruct (mset_loop_roundtrip (nested_at (S k)) bs bs' (S (Z.to_nat (remaining d))) d MNil ops bytes
+              (wrapped_rel k bs bs' Hw) ltac:(rewrite Hrem; lia) Hops Hs Hat Hrem Hlen) as (d' & E & M).
+  exists d'. change (mset_decode decompress (S (S k)) d) with
+    (mset_loop (message_decode_with decompress (nested_at (S k))) (S (Z.to_nat (remaining d))) d MNil).
+  rewrite E. cbn [mapp]. destruct M as (_ & M2 & M3 & _). cbn [off mem d] in M2, M3. repeat split; lia.
+Qed.
+
+(* Records (the magic-byte peek): a non-empty legacy set is recognised as such *)
+Theorem top_roundtrip_mset k p ov o m r bs' ops bytes :
+  wrapped_blocks (MCons o m r) bs' -> mset_ops compress (mkSet p ov (MCons o m r)) = inr ops -> spec_bytes ops = inr bytes ->
+  len bytes < MAXLEN ->
+  exists d', records_decode_top decompress (S (S k)) (mkDec bytes 0 0 []) = Ok (RLegacy (mkSet false false bs')) d' /\ off d' = len bytes.
+Proof.
+  intros Hw Hops Hs Hlen.
+  destruct (mset_roundtrip_wrapped k p ov _ bs' ops bytes 0 Hw Hops Hs Hlen) as (d' & E & Ho & _).
+  exists d'. split; [|exact Ho]. unfold records_decode_top.
+  (* the peek sees the first message's magic byte *)
+  cbn [mset_ops] in Hops. destruct (mblocks_ops_cons o m r ops bytes Hops Hs) as (mo & ro & bb & rb & Emo & Ero & Ebb & Erb & ->).
+  assert (Hrel : blocks_rel (nested_at (S k)) (MCons o m r) bs') by (now apply wrapped_rel).
+  inversion Hrel as [|? ? s ? r' Ho' Hok Hn Hr']; subst.
+  set (d := mkDec (bb ++ rb) 0 0 []).
+  assert (Hat : at_ d (bb ++ rb)) by (exists [], []; split; [cbn [raw app]; now rewrite app_nil_r | reflexivity]).
+  destruct (block_roundtrip (nested_at (S k)) o m mo bb s d rb Ho' Hok Emo Ebb Hn Hat Hlen) as (d1 & _ & _ & Pk).
+  rewrite Pk. cbn [bind]. destruct m as [codec la key value set version ts]. destruct Hok as (_ & Hv & _).
+  replace (version <? 2) with true by (symmetry; apply Z.ltb_lt; destruct Hv as [->| ->]; lia).
+  fold d in E. rewrite E. reflexivity.
 Qed.
 End Codec.
